@@ -93,10 +93,11 @@ CONTRACTS = [
                        "forall(lambda c: implies(c in result, completion_ok(c, prefix, num_words)), 'str')")],
              loops={0: {"header": "for word in words", "retype": {"completions": "set[str]"},
                         "invariant": ["forall(lambda c: implies(c in completions, completion_ok(c, prefix, num_words)), 'str')",
-                                      "lp == len(last_partial_word)", "count == count_of(prefix, '-')",
-                                      "last_partial_word == last_part(prefix, '-')",
-                                      "lp == 0 or prefix[:-lp] + last_partial_word == prefix",
-                                      "words_is_list_for(words, count)"]}}),
+                                      # stated over the parameters, not over the body's temporaries, so that renaming a
+                                      # local does not unbind the invariant
+                                      "len(last_part(prefix, '-')) == 0 or prefix[:len(prefix) - len(last_part(prefix, '-'))] + "
+                                      "last_part(prefix, '-') == prefix",
+                                      "words_is_list_for(_iter, count_of(prefix, '-'))"]}}),
     Contract("wormhole/_input.py:Input._get_nameplate_completions", props=[PROP], params={"prefix": "str"},
              self_fields={"_all_nameplates": "set[str]"},
              ensures=[("each-extends", "forall(lambda c: implies(c in result, c.startswith(prefix) and "
